@@ -259,6 +259,9 @@ func C19(c *Ctx, r *report.Run) error {
 				}
 			}
 		}
+		// every variant schema of a flattened discriminated oneof: the variant message's members are its properties, and its
+		// required[] is exactly {discriminator} + the required common fields + the required members of the variant message
+		flatVariantSchemas(r, s, d.value)
 		for _, rc := range cases[s.Name] {
 			msgName := rc.Msg
 			if msgName == "" {
@@ -437,4 +440,94 @@ func C19(c *Ctx, r *report.Run) error {
 	r.States, r.Transitions, r.Traces = r.Evaluations, r.Evaluations, r.Evaluations
 	r.Assumptions = []string{"M-rules = the protovalidate stand-in's standard-rule semantics; JSON Schema format keywords are annotations (not asserted); patterns are restricted to the RE2/ECMA-262 common subset"}
 	return nil
+}
+
+// flatVariantSchemas compares the per-variant component schemas (<Msg>_<discriminator value>) of every message with a
+// flattened discriminated oneof with the declarations: properties must include every member of the variant message, and
+// required[] must be {discriminator} + required common fields + required members of the variant message - no more, no less.
+func flatVariantSchemas(r *report.Run, s *spec.Spec, doc any) {
+	isReq := func(f *spec.Field) bool { return strings.Contains(f.Rules, "required:true") || strings.Contains(f.Rules, "required: true") }
+	f0 := s.Files[0]
+	byName := map[string]*spec.Message{}
+	for _, m := range f0.Messages {
+		byName[m.Name] = m
+	}
+	for _, m := range f0.Messages {
+		for _, o := range m.Oneofs {
+			if !o.Config || !o.Flatten {
+				continue
+			}
+			wantCommon := map[string]bool{o.Disc: true}
+			inAny := map[string]bool{}
+			for _, o2 := range m.Oneofs {
+				if o2.Config {
+					for _, f := range m.Fields {
+						if f.Oneof == o2.Name {
+							inAny[f.Name] = true
+						}
+					}
+				}
+			}
+			for _, f := range m.Fields {
+				if !inAny[f.Name] && isReq(f) {
+					wantCommon[spec.JSONName(f.Name)] = true
+				}
+			}
+			for _, f := range m.Fields {
+				if f.Oneof != o.Name || f.Kind != "message" {
+					continue
+				}
+				val := f.Name
+				if f.OneofValue != nil && *f.OneofValue != "" {
+					val = *f.OneofValue
+				}
+				vm := byName[strings.TrimPrefix(f.Type, ".")]
+				if vm == nil {
+					continue
+				}
+				comp := m.Name + "_" + val
+				cell := fmt.Sprintf("%s,component=%s", s.Cell, comp)
+				props, _, required := model.ObjectMembers(doc, "/components/schemas/"+model.PtrEscape(comp))
+				if props == nil {
+					continue // the document does not have that component: C18 checks references
+				}
+				want := map[string]bool{}
+				for k := range wantCommon {
+					want[k] = true
+				}
+				var missingProps []string
+				for _, cf := range vm.Fields {
+					jn := spec.JSONName(cf.Name)
+					if _, ok := props[jn]; !ok {
+						missingProps = append(missingProps, jn)
+					}
+					if isReq(cf) {
+						want[jn] = true
+					}
+				}
+				var lacks, extra []string
+				for k := range want {
+					if !required[k] {
+						lacks = append(lacks, k)
+					}
+				}
+				for k := range required {
+					if !want[k] {
+						extra = append(extra, k)
+					}
+				}
+				sort.Strings(missingProps)
+				sort.Strings(lacks)
+				sort.Strings(extra)
+				switch {
+				case len(missingProps) > 0:
+					r.Violate(cell+"#variant_members", "variant_member_undescribed", fmt.Sprintf("variant schema %s does not describe the members %v of %s (their rules are not published)", comp, missingProps, vm.Name), map[string]any{"spec": s, "component": comp})
+				case len(lacks) > 0 || len(extra) > 0:
+					r.Violate(cell+"#variant_required", "required_mismatch", fmt.Sprintf("required[] of variant schema %s: rules require %v in addition, schema requires %v without a rule", comp, lacks, extra), map[string]any{"spec": s, "component": comp})
+				default:
+					r.Case(cell, "variant_schema_matches_rules", true)
+				}
+			}
+		}
+	}
 }
